@@ -26,6 +26,8 @@ class Other(Exception): pass
 class Retryable(core.TransactionError): pass
 class PredicateError(Exception): pass
 class CommitRetryable(core.TransactionError): pass
+class Abort(BaseException):
+    """An exception outside the Exception hierarchy (like KeyboardInterrupt / SystemExit / GeneratorExit)."""
 
 
 class FakeCache(object):
@@ -69,7 +71,7 @@ def _predicate(tag):
 
 # ------------------------------------------------------------------ _commit_or_rollback
 def _cor_configs(tier):
-    return [dict(exc=e, allowed=a) for e in ('none', 'Allowed', 'Other') for a in ('()', '(Allowed,)', 'callable')]
+    return [dict(exc=e, allowed=a) for e in ('none', 'Allowed', 'Other', 'Abort') for a in ('()', '(Allowed,)', 'callable')]
 
 
 def _cor_case(cfg, values):
@@ -78,7 +80,7 @@ def _cor_case(cfg, values):
         allowed = {'()': (), '(Allowed,)': (Allowed,), 'callable': _predicate('allowed_pred')}[cfg['allowed']]
         s = core.DBSessionContextManager(allowed_exceptions=allowed)
         core.local.db_session = s
-        exc = {'none': None, 'Allowed': Allowed('a'), 'Other': Other('o')}[cfg['exc']]
+        exc = {'none': None, 'Allowed': Allowed('a'), 'Other': Other('o'), 'Abort': Abort('b')}[cfg['exc']]
         cur().state['exc'] = exc
         try:
             return s._commit_or_rollback(type(exc) if exc is not None else None, exc, None)
@@ -177,7 +179,7 @@ def _exit_debug_popped(cfg, i, path):
 
 
 # ------------------------------------------------------------------ _wrap_function.new_func (retry loop) — BOUNDED by retry <= K
-BODY = ['return', 'Retryable', 'Other', 'flagged', 'Allowed']
+BODY = ['return', 'Retryable', 'Other', 'flagged', 'Allowed', 'Abort']
 
 
 def _nf_configs(tier):
@@ -204,6 +206,7 @@ def _nf_case(cfg, values):
             if o == 'return': return ('result', k)
             if o == 'Retryable': raise Retryable('r')
             if o == 'Allowed': raise Allowed('a')
+            if o == 'Abort': raise Abort('b')
             e = Other('o')
             if o == 'flagged': e.should_retry = True
             raise e
@@ -274,7 +277,7 @@ def _nf_outcome(cfg, i, path):
         return o == 'return' and path.value == ('result', b[1]) and bool(ok(after, 'commit'))
     # raised: either the last body's own exception, an injected fault, or a predicate failure
     if o != 'return' and not faults and not any(g[0] == 'retry_pred' and g[1] == 'raise' for g in after):
-        want = {'Retryable': Retryable, 'Other': Other, 'flagged': Other, 'Allowed': Allowed}[o]
+        want = {'Retryable': Retryable, 'Other': Other, 'flagged': Other, 'Allowed': Allowed, 'Abort': Abort}[o]
         return isinstance(path.value, want)
     return True
 
@@ -319,9 +322,10 @@ def _nest_case(cfg, values):
 
     def call():
         def inner_body():
-            o = choose_from(['return', 'Other'], 'inner')
+            o = choose_from(['return', 'Other', 'Abort'], 'inner')
             note('inner', o)
             if o == 'Other': raise Other('i')
+            if o == 'Abort': raise Abort('i')
             return 1
         inner = core.DBSessionContextManager(retry=cfg['inner_retry'])(inner_body)
 
@@ -368,9 +372,10 @@ def _gen_case(cfg, values):
 
         def gen():
             for k in range(cfg['steps']):
-                o = choose_from(['yield-clean', 'yield-dirty', 'raise'], 'gen')
+                o = choose_from(['yield-clean', 'yield-dirty', 'raise', 'raise-base'], 'gen')
                 note('gen', k, o)
                 if o == 'raise': raise Other('g')
+                if o == 'raise-base': raise Abort('g')
                 c.modified = (o == 'yield-dirty')
                 yield k
                 c.modified = False
@@ -394,8 +399,8 @@ def _gen_spec(cfg, i, path):
         if any(x[0] in ('commit', 'release') and x[1] == 'raise' for x in g): return path.outcome == 'exc'
         # (the StopIteration then travels through the generic handler, which issues a rollback AFTER commit+release: a no-op)
         return path.outcome == 'ret' and bool(ok(g, 'commit')) and bool(ok(g, 'release')) and 'rollback' not in names(g[:ok(g, 'commit')[0]])
-    if last[2] == 'raise':
-        return path.outcome == 'exc' and isinstance(path.value, (Other, Fault)) and 'commit' not in n and n.count('rollback') == 1
+    if last[2] in ('raise', 'raise-base'):
+        return path.outcome == 'exc' and isinstance(path.value, (Other, Abort, Fault)) and 'commit' not in n and n.count('rollback') == 1
     if last[2] == 'yield-dirty':
         # suspending with uncommitted changes is refused, and rolled back
         return path.outcome == 'exc' and isinstance(path.value, (core.TransactionError, Fault)) and 'commit' not in n and n.count('rollback') == 1
@@ -449,7 +454,7 @@ def _bottle_case(cfg, values):
         def view():
             note('body', 0, cfg['raises'])
             if cfg['raises'] == 'none': return 'page'
-            raise {'HTTPResponse': bottle.HTTPResponse, 'HTTPError': bottle.HTTPError, 'Other': Other}[cfg['raises']]('x')
+            raise {'HTTPResponse': bottle.HTTPResponse, 'HTTPError': bottle.HTTPError, 'Other': Other, 'Abort': Abort}[cfg['raises']]('x')
         wrapped = bottle_plugin.PonyPlugin().apply(view, None)
         return wrapped()
     return Case(call, {}, [], setup, _unpatch_core)
@@ -473,7 +478,7 @@ CONTRACTS = [
     Contract('_commit_or_rollback', 'pony.orm.core:DBSessionContextManager._commit_or_rollback', _cor_configs, _cor_case,
              [('commit_iff_body_succeeded_or_allowed', _cor_commit_iff), ('release_only_after_successful_commit', _cor_release),
               ('session_cleared_on_every_exit', _cor_cleared), ('failures_propagate', _cor_propagation)],
-             allowed_exc=(Fault, PredicateError), doc='loop-free: all fault combinations of commit / rollback / release / allowed-predicate'),
+             allowed_exc=(Fault, PredicateError, Abort), doc='loop-free: all fault combinations of commit / rollback / release / allowed-predicate'),
     Contract('__exit__', 'pony.orm.core:DBSessionContextManager.__exit__', _exit_configs, _exit_case,
              [('commits_only_at_outermost_exit', _exit_outermost_only), ('passes_exception_through', _exit_passes_exception),
               ('debug_state_popped', _exit_debug_popped)], allowed_exc=(Fault,),
@@ -486,19 +491,19 @@ CONTRACTS = [
               ('retryable_failure_is_retried_while_attempts_remain', _nf_retryable_is_retried),
               ('session_state_restored', _nf_state_restored)],
              level='bounded', bound='retry <= 2 (quick) / 3 (thorough); per attempt the body returns or raises one of 4 exception kinds; commit may raise a retryable or a plain fault',
-             allowed_exc=(Fault, PredicateError, Allowed, Other, Retryable, CommitRetryable), budget=400000),
+             allowed_exc=(Fault, PredicateError, Allowed, Other, Retryable, CommitRetryable, Abort), budget=2000000),
     Contract('nested_decorated_call', 'pony.orm.core:DBSessionContextManager._wrap_function',
              [dict(inner_retry=r, outer_reraises=o) for r in (0, 2) for o in (False, True)], _nest_case,
              [('inner_session_never_commits_or_rolls_back', _nest_inner_never_commits), ('inner_retry_ignored', _nest_inner_runs_once)],
-             level='bounded', bound='nesting depth 2', allowed_exc=(Fault, Other)),
+             level='bounded', bound='nesting depth 2', allowed_exc=(Fault, Other, Abort)),
     Contract('generator_wrapper', 'pony.orm.core:DBSessionContextManager._wrap_coroutine_or_generator_function', _gen_configs, _gen_case,
              [('commit_on_finish_rollback_on_error_or_dirty_suspend', _gen_spec), ('no_session_while_suspended', _gen_session_closed_while_suspended),
               ('never_suspends_with_uncommitted_changes', _gen_never_suspends_dirty)],
-             level='bounded', bound='<= 2 resumptions', allowed_exc=(Fault, Other, core.TransactionError)),
+             level='bounded', bound='<= 2 resumptions', allowed_exc=(Fault, Other, Abort, core.TransactionError)),
     Contract('flask._exit_session', 'pony.flask:_exit_session', [dict(exc='none'), dict(exc='Other')], _flask_case,
              [('satisfies_precondition_of___exit__', _flask_precondition_of_exit)],
              doc='caller-side obligation of __exit__: exc_type is None iff exc is None'),
     Contract('bottle.PonyPlugin', ['pony.orm.integration.bottle_plugin:PonyPlugin.apply', 'pony.orm.integration.bottle_plugin:is_allowed_exception'],
-             [dict(raises=r) for r in ('none', 'HTTPResponse', 'HTTPError', 'Other')], _bottle_case, [('commit_iff_view_succeeded_or_responded', _bottle_spec)],
-             allowed_exc=(Fault, Other, Exception)),
+             [dict(raises=r) for r in ('none', 'HTTPResponse', 'HTTPError', 'Other', 'Abort')], _bottle_case, [('commit_iff_view_succeeded_or_responded', _bottle_spec)],
+             allowed_exc=(Fault, Other, Exception, Abort)),
 ]
